@@ -12,7 +12,7 @@ import vlib
 from vlib import Verdict
 
 PID = "C07"
-PROPS = [("theories/Union/Props.v", "Union.Props"), ("theories/Union/PropsX.v", "Union.PropsX")]
+PROPS = [("theories/Union/Props.v", "Union.Props"), ("theories/Union/PropsX.v", "Union.PropsX"), ("theories/Union/PropsP.v", "Union.PropsP")]
 AREAS = ["theories/Base", "theories/Union"]
 
 CONCLUSION = {
@@ -35,6 +35,8 @@ CONCLUSION = {
     "stale-iterator-fails-loudly": "C07_write_seq: a buffer iterator used after an accepted write panics (ART), after a rejected one it does not",
     "snapshot-read-ignores-staging": "C07_snapshot_ignores_staging: SnapshotGetter reads the buffer as at the outermost Staging",
     "snapshot-iter-ignores-staging": "C07_snapshot_ignores_staging: SnapshotIter / SnapshotIterReverse iterate the buffer as at the outermost Staging",
+    "flush-invisible-to-reads": "C07_pipelined_get / C07_pipelined_flush_invisible: reads of a pipelined transaction = latest of (mutable buffer, flushing buffer, flushed store incl. tombstones, snapshot), whatever the flush schedule and the batch-get cache hold",
+    "flush-accepted-iff-no-staging-level": "PipelinedMemDB.Flush(true) is refused exactly when a staging level is open",
     "history-head=buffered-value": "SelectValueHistory starts at the buffered value; a key without value has no history",
     "inspect-stage-covers-changes": "InspectStage(h) reports every key whose buffered value changed since Staging h, each once",
 }
@@ -71,7 +73,7 @@ def main(tier, replay):
                axioms={k: a for k, a in gate["axioms"].items() if a})
     proof_broken = not gate["ok"]
     if tier == "thorough" and gate["ok"]:
-        okc, outc = vlib.coqchk(["Verif.Union.Props", "Verif.Union.PropsX"])
+        okc, outc = vlib.coqchk(["Verif.Union.Props", "Verif.Union.PropsX", "Verif.Union.PropsP"])
         cov["coqchk"] = "ok" if okc else outc[-300:]
         if not okc:
             proof_broken = True; gate["problems"].append("coqchk: " + outc[-300:])
